@@ -44,6 +44,9 @@ def run(tier):
                         filter="admits one code object (each in turn) or everything", k="symbolic int"),
             rule="one path = (code-filter choice, class of k); the real tracer consumes the recorded events (real code objects, real f_lasti)",
             describe=H.describe, max_samples=4, validate_limit=50))
+    jobs.append(Job("harness.c02", "sessions", [{}], 60, bounds=dict(sessions=2, nested_functions="every recorded call of a nested function of the workload (closures, a recursive closure)"),
+                    rule="one path = one recorded call of a nested function: a first CallTracer meets its code where no calling frame holds the function, a second "
+                         "CallTracer gets the call as recorded; the second session must log it", describe=H.describe))
     import harness.c18 as H18
     jobs.append(Job("harness.c18", "abandon", [sh for sh in H18.shards("abandon") if sh.get("t0", 0) == 0], 200,
                     bounds=dict(script="a suspended generator is abandoned, its frame object dies, a new frame (at the dead frame's address when the "
